@@ -17,11 +17,21 @@ use std::sync::Arc;
 pub struct Tap<P: Persist> {
     pub inner: Arc<P>,
     pub recovery: Arc<AtomicBool>,
+    /// fault injection: while set, every write is refused with an internal error
+    pub fail: Arc<AtomicBool>,
 }
 
 impl<P: Persist> Tap<P> {
     pub fn new(inner: Arc<P>) -> Self {
-        Tap { inner, recovery: Arc::new(AtomicBool::new(false)) }
+        Tap { inner, recovery: Arc::new(AtomicBool::new(false)), fail: Arc::new(AtomicBool::new(false)) }
+    }
+
+    pub fn with_fail(inner: Arc<P>, fail: Arc<AtomicBool>) -> Self {
+        Tap { inner, recovery: Arc::new(AtomicBool::new(false)), fail }
+    }
+
+    fn w(&self) -> Result<(), Error> {
+        if self.fail.load(Ordering::Relaxed) { Err(Error::Internal("injected write failure".into())) } else { Ok(()) }
     }
 }
 
@@ -32,18 +42,18 @@ impl<P: Persist> Persist for Tap<P> {
     fn prepare(&self) -> Mutations { self.inner.prepare() }
     fn commit(&self) -> Result<(), Error> { self.inner.commit() }
     fn put_batch_unlogged(&self, m: Mutations) -> Result<(), Error> { self.inner.put_batch_unlogged(m) }
-    fn new_node(&self, node_id: &PublicKey, config: &NodeConfig, state: &NodeState) -> Result<(), Error> { self.inner.new_node(node_id, config, state) }
-    fn update_node(&self, node_id: &PublicKey, state: &NodeState) -> Result<(), Error> { self.inner.update_node(node_id, state) }
-    fn delete_node(&self, node_id: &PublicKey) -> Result<(), Error> { self.inner.delete_node(node_id) }
-    fn new_channel(&self, node_id: &PublicKey, stub: &ChannelStub) -> Result<(), Error> { self.inner.new_channel(node_id, stub) }
-    fn delete_channel(&self, node_id: &PublicKey, channel: &ChannelId) -> Result<(), Error> { self.inner.delete_channel(node_id, channel) }
-    fn new_tracker(&self, node_id: &PublicKey, tracker: &ChainTracker<ChainMonitor>) -> Result<(), Error> { self.inner.new_tracker(node_id, tracker) }
-    fn update_tracker(&self, node_id: &PublicKey, tracker: &ChainTracker<ChainMonitor>) -> Result<(), Error> { self.inner.update_tracker(node_id, tracker) }
+    fn new_node(&self, node_id: &PublicKey, config: &NodeConfig, state: &NodeState) -> Result<(), Error> { self.w()?; self.inner.new_node(node_id, config, state) }
+    fn update_node(&self, node_id: &PublicKey, state: &NodeState) -> Result<(), Error> { self.w()?; self.inner.update_node(node_id, state) }
+    fn delete_node(&self, node_id: &PublicKey) -> Result<(), Error> { self.w()?; self.inner.delete_node(node_id) }
+    fn new_channel(&self, node_id: &PublicKey, stub: &ChannelStub) -> Result<(), Error> { self.w()?; self.inner.new_channel(node_id, stub) }
+    fn delete_channel(&self, node_id: &PublicKey, channel: &ChannelId) -> Result<(), Error> { self.w()?; self.inner.delete_channel(node_id, channel) }
+    fn new_tracker(&self, node_id: &PublicKey, tracker: &ChainTracker<ChainMonitor>) -> Result<(), Error> { self.w()?; self.inner.new_tracker(node_id, tracker) }
+    fn update_tracker(&self, node_id: &PublicKey, tracker: &ChainTracker<ChainMonitor>) -> Result<(), Error> { self.w()?; self.inner.update_tracker(node_id, tracker) }
     fn get_tracker(&self, node_id: PublicKey, validator_factory: Arc<dyn ValidatorFactory>) -> Result<(ChainTracker<ChainMonitor>, Vec<ChainTrackerListenerEntry>), Error> { self.inner.get_tracker(node_id, validator_factory) }
-    fn update_channel(&self, node_id: &PublicKey, channel: &Channel) -> Result<(), Error> { self.inner.update_channel(node_id, channel) }
+    fn update_channel(&self, node_id: &PublicKey, channel: &Channel) -> Result<(), Error> { self.w()?; self.inner.update_channel(node_id, channel) }
     fn get_channel(&self, node_id: &PublicKey, channel_id: &ChannelId) -> Result<ChannelEntry, Error> { self.inner.get_channel(node_id, channel_id) }
     fn get_node_channels(&self, node_id: &PublicKey) -> Result<Vec<(ChannelId, ChannelEntry)>, Error> { self.inner.get_node_channels(node_id) }
-    fn update_node_allowlist(&self, node_id: &PublicKey, allowlist: Vec<String>) -> Result<(), Error> { self.inner.update_node_allowlist(node_id, allowlist) }
+    fn update_node_allowlist(&self, node_id: &PublicKey, allowlist: Vec<String>) -> Result<(), Error> { self.w()?; self.inner.update_node_allowlist(node_id, allowlist) }
     fn get_node_allowlist(&self, node_id: &PublicKey) -> Result<Vec<String>, Error> { self.inner.get_node_allowlist(node_id) }
     fn get_nodes(&self) -> Result<Vec<(PublicKey, NodeEntry)>, Error> { self.inner.get_nodes() }
     fn clear_database(&self) -> Result<(), Error> { self.inner.clear_database() }
